@@ -19,7 +19,7 @@ MAX_STEPS = 160
 
 BEHAVIOURS = ("value", "none", "callresult", "unserializable", "oversized", "raise-app", "raise-mapped", "raise-unmapped",
               "raise-unserializable-args", "pending-ok", "pending-fail", "pending-forever", "progress-then-value",
-              "coroutine-ok", "coroutine-fail", "pending-absorbs-cancel", "pending-cancel-raises-app")
+              "coroutine-ok", "coroutine-fail", "pending-absorbs-cancel", "pending-cancel-raises-app", "at-limit")
 
 
 class Unserializable:
@@ -166,6 +166,8 @@ class World(StackWorld):
             return Unserializable()
         if b == "oversized":
             return "O" * inv.big
+        if b == "at-limit":
+            return "L" * inv.fit
         if b == "raise-app":
             raise ApplicationError("com.example.app_error", "boom", 7, detail="d")
         if b == "raise-mapped":
@@ -280,6 +282,13 @@ class World(StackWorld):
         inv.behaviour = ch.pick(BEHAVIOURS, "behaviour")
         if inv.behaviour == "oversized" and self.limit is None:
             inv.behaviour = "value"
+        if inv.behaviour == "at-limit":
+            # a result whose YIELD is exactly as large as the transport allows: still a result
+            inv.fit = self.fit_result_to_limit(inv.id)
+            if inv.fit is None:
+                inv.behaviour = "value"
+            else:
+                self.run.probe("result-exactly-at-the-size-limit")
         inv.proc = ch.pick(("plain", "details", "pfx"), "proc", (3, 3, 2))
         if "com.example." + inv.proc in self.unregistered:
             left = [n for n in ("plain", "details", "pfx") if "com.example." + n not in self.unregistered]
@@ -485,8 +494,27 @@ class World(StackWorld):
                     run.probe("progressive-yields")
         run.probe("transport-up" if up else "transport-down")
 
+    def fit_result_to_limit(self, request):
+        """length of a string result whose YIELD serializes to exactly the transport's size limit (None: no limit, or no
+        string length hits it exactly with this serializer)"""
+        if self.limit is None:
+            return None
+        from autobahn.wamp import message
+        ser = make_ser(self.cfg["ser"])
+        n = self.limit - 16
+        for _ in range(12):
+            if n < 1:
+                return None
+            size = len(ser.serialize(message.Yield(request, args=["L" * n]))[0])
+            if size == self.limit:
+                return n
+            n += self.limit - size
+        return None
+
     def expected_yield(self, inv):
         b = inv.behaviour
+        if b == "at-limit":
+            return ["L" * inv.fit], {}
         if b in ("value", "pending-ok", "progress-then-value", "coroutine-ok", "pending-absorbs-cancel", "pending-cancel-raises-app"):
             return [jsonish(inv.value)], {}
         if b == "none":
